@@ -7,7 +7,7 @@ from ..evidence import h
 LEVEL = 'exploration'
 RULE = ('trained rulesets and generated ones with ties inside and across PRINCE groups (incl. E/W entries), both --all_lower settings; in-process: the real '
         'create_prince_wordlist with every PcfgQueue.next() monitored and every word recorded, compared with the reference language of the Prince folder; --size N '
-        'for EVERY N in 1..total+2 (total <= 400) or boundary-targeted N; CLI: prince_ling.py to stdout and with -o FILE (must be identical), with --size. '
+        'for EVERY N in 1..total+2 (total <= 400) or boundary-targeted N; CLI: prince_ling.py to stdout and with -o FILE (must be identical, also when FILE already exists with longer content), with --size. '
         'non-trivial = N strictly inside a group of equally probable words; distinct by (ruleset hash, all_lower, N)')
 SHARDS = {'quick': 4, 'thorough': 16}
 N = {'quick': 45, 'thorough': 400}
@@ -119,6 +119,14 @@ def check_case(run, case, tier='quick'):
             sz = [] if n is None else ['-s', str(n)]
             out, err, rc, to = cli.run_cli('prince_ling.py', ['-r', name] + fl + sz, stdin_mode='devnull', max_out=8 << 20)
             ofile = os.path.join(path, 'prince_out.txt')
+            # history: the output file already exists and holds a longer list (an earlier unbounded run into the same path), or some other text
+            if rng.random() < 0.7:
+                if rng.random() < 0.5:
+                    cli.run_cli('prince_ling.py', ['-r', name, '-o', ofile], stdin_mode='devnull', max_out=8 << 20)
+                    run.ev('cli_runs')
+                else:
+                    open(ofile, 'wb').write(b'left over from an earlier run\n' * 400)
+                run.ev('cli_runs_into_an_existing_file')
             out2, err2, rc2, to2 = cli.run_cli('prince_ling.py', ['-r', name, '-o', ofile] + fl + sz, stdin_mode='devnull', max_out=8 << 20)
             run.ev('cli_runs', 2)
             if not (to or to2):
@@ -138,7 +146,7 @@ def check_case(run, case, tier='quick'):
         repo.drop_rules(name)
 
 def run(run, rng):
-    run.required_events = ['POP', 'WORD', 'size_runs', 'rulesets_with_every_N', 'cli_file_equals_stdout']
+    run.required_events = ['POP', 'WORD', 'size_runs', 'rulesets_with_every_N', 'cli_file_equals_stdout', 'cli_runs_into_an_existing_file']
     run.min_distinct = 10
     run.exhaustive = True
     run.extra['exhaustive_scope'] = 'every N in 1..total+2 for explored rulesets with total <= 400 words (thorough <= 1500)'
